@@ -6,7 +6,9 @@ pub mod store {
     pub use crate::StoreError as Error;
 }
 pub struct StoreError { pub code: u8 }
-impl From<StoreError> for Error { #[verifier::external_body] fn from(e: StoreError) -> (r: Error) ensures r is Backend && store_err(r) { unimplemented!() } }
+pub uninterp spec fn spec_store_msg(e: StoreError) -> String;
+impl vstd::std_specs::convert::FromSpecImpl<StoreError> for Error { open spec fn obeys_from_spec() -> bool { true } open spec fn from_spec(e: StoreError) -> Self { Error::Backend(spec_store_msg(e)) } }
+impl From<StoreError> for Error { #[verifier::external_body] fn from(e: StoreError) -> (r: Error) ensures r == Error::Backend(spec_store_msg(e)) { unimplemented!() } }
 #[verifier::external_body]
 pub struct RawStore { inner: u8 }
 #[verifier::external_body]
